@@ -20,12 +20,12 @@ func init() {
 		Floor: 3, MustExist: true, Run: runR173,
 	})
 	register(&Rule{
-		ID: "R17.4", Props: []string{"C17"}, Engine: "order (path automaton)",
+		ID: "R17.4", Props: []string{"C17", "C11"}, Engine: "order (path automaton)",
 		Text:  "limits are paired on every path: concurrencyLimitingBlobReplicator.ReplicateMultiple calls the base only after a successful AcquireSemaphore and releases exactly once on every path after it; queuedBlobReplicator.ReplicateMultiple puts the queue token back exactly once on every path after taking it, calls the base only while holding it, and adds to the existence cache only on the nil edge of the base's result",
 		Floor: 2, MustExist: true, Run: runR174,
 	})
 	register(&Rule{
-		ID: "R17.5", Props: []string{"C17"}, Engine: "lockstate + order (path automaton)",
+		ID: "R17.5", Props: []string{"C17", "C11"}, Engine: "lockstate + order (path automaton)",
 		Text:  "deduplication protocol: the in-flight map is accessed only under the replicator's mutex, which is released on every exit and not held while waiting; a caller that registered an entry removes it and stores success (= the copy's error is nil) – both before it closes the finished channel – exactly once, on every path (also when the copy failed); a waiter reads success only after receiving from finished and skips the digest only when success is true – otherwise it retries",
 		Floor: 6, MustExist: true, Run: runR175,
 	})
@@ -303,6 +303,39 @@ func runR174(c *Ctx) {
 			return badPos
 		}()), "acquire(ok) · base · release exactly once on every path", bad)
 	}
+	// every other method of the limiter reaches the base only through the limited path
+	if T := c.LookupType(replicationRel, "concurrencyLimitingBlobReplicator"); T != nil {
+		for _, f := range c.pkgFuncs(replicationRel) {
+			if f.Signature.Recv() == nil || f.Name() == "ReplicateMultiple" {
+				continue
+			}
+			rt := f.Signature.Recv().Type()
+			if p, ok := rt.(*types.Pointer); ok {
+				rt = p.Elem()
+			}
+			if !types.Identical(rt, T) {
+				continue
+			}
+			withAnon(f, func(g *ssa.Function) {
+				bypass := token.NoPos
+				allInstrs(g, func(ins ssa.Instruction) {
+					cc := callOf(ins)
+					if cc == nil || !cc.IsInvoke() {
+						return
+					}
+					if recvFieldLoadName(g, cc.Value) == "base" {
+						bypass = ins.Pos()
+					}
+				})
+				c.Check(bypass == token.NoPos, FuncName(g), "limited-path-only", c.Pos(func() token.Pos {
+					if bypass != token.NoPos {
+						return bypass
+					}
+					return g.Pos()
+				}()), "reaches the base replicator only through the method that holds the semaphore", "the base replicator is called directly, outside the method that acquires the semaphore: copies started through this path are not counted against the configured limit")
+			})
+		}
+	}
 	// queued
 	if fn := c.Method(replicationRel, "queuedBlobReplicator", "ReplicateMultiple"); fn == nil {
 		c.Broken("queuedBlobReplicator.ReplicateMultiple not found")
@@ -450,10 +483,21 @@ func runR175(c *Ctx) {
 					// value: err == nil
 					okVal := false
 					if bo, ok := x.Val.(*ssa.BinOp); ok && bo.Op == token.EQL && isErrorType(bo.X.Type()) && (isNilConst(bo.Y) || isNilConst(bo.X)) {
-						okVal = true
+						// … of the error that includes the copy itself
+						ev := bo.X
+						if isNilConst(ev) {
+							ev = bo.Y
+						}
+						deepSlice(fn, ev, func(v ssa.Value) bool {
+							if cl, ok := v.(*ssa.Call); ok && cl.Call.IsInvoke() && cl.Call.Method.Name() == "ReplicateMultiple" {
+								okVal = true
+								return false
+							}
+							return !okVal
+						})
 					}
 					if !okVal {
-						bad, badPos = "the outcome stored is not `the copy's error is nil`", x.Pos()
+						bad, badPos = "the outcome stored is not `the error of the whole attempt – existence check and copy – is nil` (it is computed before, or without, the copy): waiters take a failed replication for a successful one and report the object as present in the sink", x.Pos()
 					}
 					return st | 4
 				}
